@@ -157,14 +157,18 @@ func genAll(tier string, emit func(engine.Case) bool) {
 	if tier == "thorough" {
 		b = thoroughBounds
 	}
-	pass(e, b, 1)
+	sb := quickSize
+	if tier == "thorough" {
+		sb = thoroughSize
+	}
+	pass(e, b, 1, &sb)
 	if tier == "thorough" && !e.stop {
 		// second pass: the quick space again with every pair of deviations
-		pass(e, quickBounds, 2)
+		pass(e, quickBounds, 2, nil)
 	}
 }
 
-func pass(e *emitter, b bounds, k int) {
+func pass(e *emitter, b bounds, k int, sb *sizeBounds) {
 	// F0: the empty file
 	e.begin("F0-empty", k, "extended")
 	e.tree()
@@ -180,6 +184,13 @@ func pass(e *emitter, b bounds, k int) {
 	}
 	e.tree(bt.A("a", "num"), blk(nil, bt.EOL), bt.A("b", "str"))
 	e.tree(blk(nil, bt.ML, bt.A("a", "heredoc"), blk(nil, bt.OL1, bt.A("a", "num"))), bt.A("a", "tuple"))
+
+	// F7: the size dimension (sibling counts and nesting depths across the
+	// usual boundaries). Linear cost per case; emitted early so that a thorough
+	// run that meets its deadline has still covered it.
+	if sb != nil {
+		sizeFamily(e, k, *sb)
+	}
 
 	// F1: attribute-only bodies
 	e.begin("F1-attrs", k, "basic")
